@@ -76,7 +76,7 @@ func fieldArith(p *load.Prog, r *report.Report, m *elemModel, prop string) {
 	pats1 := []pat{{"distinct", "a", ""}, {"argument is the receiver", "e", ""}}
 	val := map[string]*absint.Poly{"e": e0, "a": a, "b": b}
 	for _, op := range ops {
-		fn := p.Method(p.Field, "Element", op.meth)
+		fn := anchorMethod(p, p.Field, "Element", op.meth)
 		if fn == nil {
 			r.Undecided(prop+".anchor", "field.Element."+op.meth, "", "method not found")
 			continue
@@ -154,7 +154,7 @@ func C12(p *load.Prog, r *report.Report) {
 	fieldArith(p, r, m, "C12")
 	siblingChecks(p, r, "C12")
 	// chains
-	if fn := p.Method(p.Field, "Element", "Invert"); fn != nil {
+	if fn := anchorMethod(p, p.Field, "Element", "Invert"); fn != nil {
 		chainExponent(p, r, m, "C12", "field.Element.Invert", fn, FP, func(it *absint.Interp, alpha *absint.Poly) ([]absint.Value, func() *absint.Cell) {
 			z := m.newFE(it, "z", pInt(FP, 0))
 			x := m.newFE(it, "x", alpha)
@@ -169,7 +169,7 @@ func C12(p *load.Prog, r *report.Report) {
 		r.Undecided("C12.anchor", "field.Element.Invert", "", "method not found")
 	}
 	// (p-3)/4: found as the heavy callee of SqrtRatio
-	if sr := p.Method(p.Field, "Element", "SqrtRatio"); sr != nil {
+	if sr := anchorMethod(p, p.Field, "Element", "SqrtRatio"); sr != nil {
 		var chain *ssa.Function
 		for _, c := range p.StaticCallees(sr) {
 			if absint.IsHeavy(c) {
@@ -189,7 +189,7 @@ func C12(p *load.Prog, r *report.Report) {
 	// sqrt_ratio, Sgn0, IsZero, Equals, CMove
 	roots := sqrtMinusZ()
 	u, v := absint.FieldSym(FP, "u"), absint.FieldSym(FP, "v")
-	if fn := p.Method(p.Field, "Element", "SqrtRatio"); fn != nil {
+	if fn := anchorMethod(p, p.Field, "Element", "SqrtRatio"); fn != nil {
 		runEach(p, r, "C12.sqrt_ratio", "field.Element.SqrtRatio", fn, func(it *absint.Interp) []absint.Value {
 			return []absint.Value{ptr(m.newFE(it, "out", pInt(FP, 0))), ptr(m.newFE(it, "u", u)), ptr(m.newFE(it, "v", v))}
 		}, func(res *absint.PathResult) {
@@ -208,7 +208,7 @@ func C12(p *load.Prog, r *report.Report) {
 		})
 	}
 	// SqrtRatio under aliasing of receiver and arguments
-	if fn := p.Method(p.Field, "Element", "SqrtRatio"); fn != nil {
+	if fn := anchorMethod(p, p.Field, "Element", "SqrtRatio"); fn != nil {
 		for _, pat := range []string{"receiver is u", "receiver is v", "u and v are the same", "all the same"} {
 			construct := "field.Element.SqrtRatio (" + pat + ")"
 			uu, vv := u, v
@@ -262,7 +262,7 @@ func C12(p *load.Prog, r *report.Report) {
 		{"IsZero", 1, absint.ISZ(a), "[a = 0]"},
 		{"Equals", 2, absint.ISZ(a.Sub(b)), "[a = b] over all four limbs"},
 	} {
-		fn := p.Method(p.Field, "Element", c.meth)
+		fn := anchorMethod(p, p.Field, "Element", c.meth)
 		if fn == nil {
 			r.Undecided("C12.anchor", "field.Element."+c.meth, "", "method not found")
 			continue
@@ -278,7 +278,7 @@ func C12(p *load.Prog, r *report.Report) {
 			r.Check(ok && got.Equal(st(res, c.want)), "C12.predicate", "field.Element."+c.meth, p.Pos(fn.Pos()), "result = "+c.what, fmt.Sprintf("result is %s, expected %s", absint.Show(res.Ret), c.want))
 		})
 	}
-	if fn := p.Method(p.Field, "Element", "CMove"); fn != nil {
+	if fn := anchorMethod(p, p.Field, "Element", "CMove"); fn != nil {
 		c := absint.SymBool("c")
 		for _, pat := range []string{"distinct", "u is the receiver", "v is the receiver"} {
 			construct := "field.Element.CMove (" + pat + ")"
@@ -309,7 +309,7 @@ func C12(p *load.Prog, r *report.Report) {
 	}
 	// Reduce on four symbolic words
 	pT := absint.TConst(FP.M)
-	if fn := p.Field.Func("Reduce"); fn != nil {
+	if fn := anchorFunc(p, p.Field, "Reduce"); fn != nil {
 		w := []*absint.Term{absint.SymWord("x0"), absint.SymWord("x1"), absint.SymWord("x2"), absint.SymWord("x3")}
 		X := absint.LiftLimbs(w)
 		runEach(p, r, "C12.reduce", "field.Reduce", fn, func(it *absint.Interp) []absint.Value {
@@ -328,7 +328,7 @@ func C12(p *load.Prog, r *report.Report) {
 	} else {
 		r.Undecided("C12.anchor", "field.Reduce", "", "function not found")
 	}
-	if fn := p.Method(p.Field, "Element", "FromBytesWithReduce"); fn != nil {
+	if fn := anchorMethod(p, p.Field, "Element", "FromBytesWithReduce"); fn != nil {
 		X := os2ip("in", 0, 32)
 		runEach(p, r, "C12.parse", "field.Element.FromBytesWithReduce", fn, func(it *absint.Interp) []absint.Value {
 			return []absint.Value{ptr(m.newFE(it, "e", pInt(FP, 0))), symByteArray(it, "in", 32)}
@@ -345,7 +345,7 @@ func C12(p *load.Prog, r *report.Report) {
 	} else {
 		r.Undecided("C12.anchor", "field.Element.FromBytesWithReduce", "", "method not found")
 	}
-	if fn := p.Method(p.Field, "Element", "Bytes"); fn != nil {
+	if fn := anchorMethod(p, p.Field, "Element", "Bytes"); fn != nil {
 		runEach(p, r, "C12.serialise", "field.Element.Bytes", fn, func(it *absint.Interp) []absint.Value {
 			return []absint.Value{ptr(m.newFE(it, "a", a))}
 		}, func(res *absint.PathResult) {
@@ -365,7 +365,7 @@ func C12(p *load.Prog, r *report.Report) {
 	} else {
 		r.Undecided("C12.anchor", "field.Element.Bytes", "", "method not found")
 	}
-	if fn := p.Method(p.Field, "Element", "HashToFieldElement"); fn != nil {
+	if fn := anchorMethod(p, p.Field, "Element", "HashToFieldElement"); fn != nil {
 		X := os2ip("in", 0, 48)
 		runEach(p, r, "C12.wide", "field.Element.HashToFieldElement", fn, func(it *absint.Interp) []absint.Value {
 			return []absint.Value{ptr(m.newFE(it, "e", pInt(FP, 0))), symByteArray(it, "in", 48)}
